@@ -113,7 +113,7 @@ def digest_type_params(compiler, tp):
             if is_unpack("mapping", x) else
         asty.TypeVar(x[0],
                name = mangle(x[0]),
-               bound = x[1] and compile_lazy_expr(compiler, x[1]))
+               bound = None if x[1] is None else compile_lazy_expr(compiler, x[1]))
         for x in tp[0]])
 
 
@@ -1348,7 +1348,7 @@ def compile_match_expression(compiler, expr, root, subject, clauses):
     lifted_if_defs = []
     match_cases = []
     for *pattern, guard, body in clauses:
-        if guard and body == Keyword("as"):
+        if guard is not None and body == Keyword("as"):
             compiler._syntax_error(body, ":as clause cannot come after :if guard")
 
         body = compiler._compile_branch([body])
@@ -1358,7 +1358,7 @@ def compile_match_expression(compiler, expr, root, subject, clauses):
 
         pattern = compile_pattern(compiler, pattern)
 
-        if guard:
+        if guard is not None:
             guard = compiler.compile(guard)
             if guard.stmts:
                 fname = compiler.get_anon_var()
@@ -1383,7 +1383,7 @@ def compile_match_expression(compiler, expr, root, subject, clauses):
         match_cases.append(
             ast.match_case(
                 pattern=pattern,
-                guard=guard.force_expr if guard else None,
+                guard=guard.force_expr if guard is not None else None,
                 body=body,
             )
         )
@@ -2194,7 +2194,7 @@ def compile_import(compiler, expr, root, is_lazy, entries):
 @pattern_macro("assert", [FORM, maybe(FORM)])
 def compile_assert_expression(compiler, expr, root, test, msg):
     test = compiler.compile(test)
-    if msg:
+    if msg is not None:
         msg = compiler.compile(msg)
 
     if not (test.stmts or (msg and msg.stmts)):
